@@ -21,8 +21,10 @@ type Case struct {
 	Req  []string `json:"req,omitempty"`
 	Opt  []Param  `json:"opt,omitempty"`
 	Rest string   `json:"rest,omitempty"`
-	Key  []Param  `json:"key,omitempty"`
-	Aux  []Param  `json:"aux,omitempty"`
+	// Body: the rest parameter is introduced by &body, which the lambda list of a function or macro may use for &rest
+	Body bool    `json:"body,omitempty"`
+	Key  []Param `json:"key,omitempty"`
+	Aux  []Param `json:"aux,omitempty"`
 	// Args: each is an integer text, a keyword (":name") or a plain symbol name (passed quoted).
 	Args []string `json:"args,omitempty"`
 	// Outer lists parameter names that are also bound by a let around the definition and the call.
@@ -59,7 +61,11 @@ func (c Case) LambdaList() string {
 	}
 	if c.Rest != "" {
 		sep()
-		b.WriteString("&rest " + c.Rest)
+		if c.Body {
+			b.WriteString("&body " + c.Rest)
+		} else {
+			b.WriteString("&rest " + c.Rest)
+		}
 	}
 	if len(c.Key) > 0 {
 		sep()
